@@ -77,7 +77,7 @@ def casF (G : Grammar) : Nat → List String → Expr → Bool
       | none => false
       | some b => if vis.contains n then true else casF G f (n :: vis) b
     | .alt es => es.any (casF G f vis)
-    | .ualt _ es => es.any (casF G f vis)
+    | .ualt _ _ => false   -- every case is `Sequence[&class, e]` and a lookahead never "always succeeds"
     | .seq es => es.all (casF G f vis)
     | .push e _ => casF G f vis e
     | .ipush e _ => casF G f vis e
